@@ -65,7 +65,7 @@ LAYOUT_FLAGS = (
     'abbrev',  # record names abbreviated to 3+ letters ($EST, $SUBS, $PROB)
     'abbrev2',  # other abbreviations and synonyms ($INFILE, $ESTM, $COVR)
     'lower',  # record names in lower case
-    'lower_code',  # abbreviated code and options in lower case
+    'lower_code',  # abbreviated code and options in lower case (not the case sensitive $ABBR keywords)
     'pretext',  # text (comment lines, empty line) before the first record
     'crlf',  # CR LF line endings
     'nul',  # NUL bytes as separators (between plain words, around = in code)
@@ -302,7 +302,7 @@ def build_records(base, flags, pk_body=None, error_body=None, thetas=None, cov=T
     )
     if 'lower_code' in F:
         recs = [
-            (k, f, ls) if k in ('PROBLEM', 'FOO', 'DATA') else (k, _lower_nc(f), [_lower_nc(x) for x in ls])
+            (k, f, ls) if k in ('PROBLEM', 'FOO', 'DATA', 'ABBREVIATED') else (k, _lower_nc(f), [_lower_nc(x) for x in ls])
             for k, f, ls in recs
         ]
     return recs
@@ -364,16 +364,23 @@ def model_text(base, flags, **kw):
 # syntactic features (decided on the text alone); rejected plain texts fail C_ACCEPT.  Tolerated
 # rejections are counted and returned under 'rejected' (they never count as nontrivial cases).
 def feature_tag(kind, text, flags=()):
-    if 'lower_code' in flags:
-        return 'lower case option keywords'
     if 'nul_kv' in flags:
         return 'NUL byte as separator in a non-code record'
     if kind is None:
         return None
     if kind in ('PK', 'PRED', 'ERROR', 'DES'):
-        last = re.split(r'\r?\n', text)[-1]
-        if last.startswith('"'):
+        lines = re.split(r'\r?\n', text)
+        if lines[-1].startswith('"'):
             return 'verbatim line without newline at the end of the text'
+        depth = 0
+        for ln in lines:
+            code = re.sub(r'^\$\w+', '', ln.split(';')[0].strip()).strip().upper()
+            if re.match(r'IF\s*\(.*\)\s*THEN$', code):
+                depth += 1
+            elif re.match(r'END\s*IF$', code):
+                depth -= 1
+            elif depth > 0 and ln.startswith('"'):
+                return 'verbatim line inside an IF block'
         return None
     if '\x00' in text:
         return 'NUL byte as separator in a non-code record'
@@ -381,6 +388,8 @@ def feature_tag(kind, text, flags=()):
         return '$THETA (...)xn repetition'
     if kind == 'THETA' and '=' in re.sub(r';[^\n]*', '', text):
         return '$THETA KEY=VALUE option'
+    if kind in ('OMEGA', 'SIGMA') and 'VALUES' in text:
+        return '$OMEGA BLOCK(n) VALUES(diag,odiag)'
     if kind in ('OMEGA', 'SIGMA') and re.search(r',', re.sub(r'\([^)]*\)|;[^\n]*', '', text)):
         return 'comma between $OMEGA/$SIGMA initial estimates'
     return None
@@ -729,7 +738,8 @@ CODE_LINES = (
     'F1 = 1-THETA(2)\t',
     'x=-1.0d-3+y',
     'MU_1\x00=\x00THETA(1)',
-    'IF (T.GE.2.5.OR..NOT.(W.LT.1E-3)) THEN\n; inside\n\n V=PHI(Q)\n" inner verbatim\nEND IF',
+    'IF (T.GE.2.5.OR..NOT.W.LT.1E-3) THEN\n; inside\n\n V=PHI(Q)\nEND IF',
+    'IF (A.GT.0) THEN\n" verbatim in block\nB=1\nENDIF',
     'Y=F+F*EPS(1)+ERR(2)',
     'A_0(1)=THETA(3)',
     'RETURN',
@@ -795,7 +805,7 @@ def _rt_stream_worker(case):
     base, flags = case
     text, pre, chunks = model_text(base, flags)
     return [(f, c, d if c == 'REJECTED' else d + f' for the {base} base model with layout variants {list(flags)}',
-             {'kind': 'stream', 'base': base, 'flags': list(flags)}, len(text))
+             {'kind': 'stream', 'base': base, 'flags': list(flags)}, len(flags) * 10**6 + len(text))
             for f, c, d in check_stream(text, pre, chunks, feature_tag(None, text, flags))]
 
 
@@ -1214,8 +1224,12 @@ def check_edit(text, edit, info):
     for k, _ in old + new:
         if k not in kinds:
             kinds.append(k)
+    old_kinds = {k for k, _ in old}
+    added = [c for k, c in new if k not in old_kinds and k not in related]
+    if added:
+        fails.append((FID_UPDATE, f'after {label}: no record of another kind is added', f'added {added!r}'))
     for k in kinds:
-        if k in related:
+        if k in related or k not in old_kinds:
             continue
         a = [c for kk, c in old if kk == k]
         b = [c for kk, c in new if kk == k]
@@ -1409,15 +1423,15 @@ def gen_us_cases(tier):
         for fl in _flag_sets(MODEL_FLAGS, 2 if quick else 3):
             yield {'base': base, 'flags': list(fl), 'edit': None}
     # (b1) record level edits and code edits x layout variants
+    code_flags = ('crlf', 'trail_ws', 'sameline', 'cont', 'verbatim', 'cmt_code', 'blank_code', 'ifblock')
     for base in ('advan', 'pred'):
         for fl in _flag_sets(MODEL_FLAGS, 1 if quick else 2):
-            if 'lower' in fl and False:
-                continue
             for edit in record_edits(base):
                 yield {'base': base, 'flags': list(fl), 'edit': edit}
             yield {'base': base, 'flags': list(fl), 'edit': ['add_cov'], 'cov': False}
-            for edit, kind in code_edits_plain(base):
-                yield {'base': base, 'flags': list(fl), 'edit': edit, 'code_kind': kind}
+            if len(fl) < 2 or all(f in code_flags for f in fl):
+                for edit, kind in code_edits_plain(base):
+                    yield {'base': base, 'flags': list(fl), 'edit': edit, 'code_kind': kind}
     # (b2) code edits x decorations around the edited statement
     D = DECOR_QUICK if quick else DECOR_THOROUGH
     for base in ('advan', 'pred'):
@@ -1427,12 +1441,12 @@ def gen_us_cases(tier):
         edits += [(['insert', None], 0, 0)] + [(['insert', s], k + 1, k + 1) for k, s in enumerate(syms)]
         edits += [(['modify', LAST_STATEMENT[base]], 4, 5)]
         edits += [(['rename', syms[1]], 1, 2)]
-        flagsets = [()] if quick else [(), ('crlf',), ('trail_ws',), ('sameline',)]
+        flagsets = [()] if quick else [(), ('crlf',)]
         for fl in flagsets:
             for edit, g1, g2 in edits:
                 for d1 in D:
                     for d2 in (D if g2 != g1 else ('-',)):
-                        others = D if not quick else (None,)
+                        others = ('-', 'C', 'V') if not quick else (None,)
                         for j, do in enumerate(others):
                             decor = [D[(i + len(d1) + len(d2)) % len(D)] for i in range(6)]
                             if do is not None:
@@ -1452,7 +1466,8 @@ def _us_worker(case):
         res = check_identity(text)
     else:
         res = check_edit(text, edit, info)
-    return [(f, c, d + f' [case {case}]', case, len(text)) for f, c, d in res], True
+    size = len(case['flags']) * 10**6 + len(text)
+    return [(f, c, d + f' [case {case}]', case, size) for f, c, d in res], True
 
 
 def bounded_update_source(tier):
